@@ -22,7 +22,6 @@ operation menu (computed on the model), transitions = mutator applications
 executed on the implementation, traces = histories executed.
 """
 import hashlib
-import itertools
 
 import numpy as np
 
@@ -144,6 +143,8 @@ def _check(net, mdl, op, viol, excl, stats, cname="ClimateNetwork",
     against the reference model `mdl` (already advanced by `op`).  Returns the
     adjacency observed (numpy) or None when observation failed."""
     kind, arg = op
+    sub_name, cname = cname, "ClimateNetwork"   # thresholding, counting and
+    # the setters are base class code: one key whatever subclass shows it
     S = mdl.S
     n = mdl.n
     P = n * (n - 1)
@@ -233,8 +234,18 @@ def _check(net, mdl, op, viol, excl, stats, cname="ClimateNetwork",
             bad = bad & ~zero
     else:
         bad = (A != E) & ~U
-    if np.any(bad):
-        viol.append(V("%s.adjacency:relation:%s" % (cname, loc),
+    rel_ok = not np.any(bad)
+    if not rel_ok:
+        Vw, _ = mdl._w[mdl.non_local]
+        Ege = (np.array(Vw) >= tau_f).astype(int)
+        np.fill_diagonal(Ege, 0)
+        if support_only:
+            key = "%s.adjacency:support:%s" % (sub_name, loc)
+        elif np.array_equal(A, Ege):
+            key = "ClimateNetwork.adjacency:relation=links-at-equality"
+        else:
+            key = "ClimateNetwork.adjacency:relation:%s" % loc
+        viol.append(V(key,
                       "adjacency is not (|S|*w > threshold) off the diagonal "
                       "(threshold %r as reported, after %s %r)" % (
                           tau_f, kind, arg), A, E))
@@ -261,11 +272,11 @@ def _check(net, mdl, op, viol, excl, stats, cname="ClimateNetwork",
         viol.append(V("%s.link_density:inconsistent-with-adjacency:%s" % (
             cname, dtag), "after %s %r" % (kind, arg), dens, nnz / P))
     # ---- density bounds
-    if kind == "dens" and tau_ok:
+    if kind == "dens" and tau_ok and rel_ok:
         lo, hi = M.density_bounds(S, arg, tau_f)
         if nnz > hi:
             viol.append(V("ClimateNetwork.set_link_density:density>request:"
-                          + dcls + ":" + loc, "requested %r" % arg,
+                          + dcls, "requested %r" % arg,
                           "%d of %d ordered pairs" % (nnz, P),
                           "<= %s" % float(hi)))
         if support_only or mdl.non_local:
@@ -278,9 +289,9 @@ def _check(net, mdl, op, viol, excl, stats, cname="ClimateNetwork",
                           "%d of %d ordered pairs" % (nnz, P),
                           ">= %s" % float(lo)))
         stats["density_requests"] = stats.get("density_requests", 0) + 1
-        if hi > 0 and nnz == hi:
-            stats["density_met_exactly"] = stats.get(
-                "density_met_exactly", 0) + 1
+        if nnz == lo and not (support_only or mdl.non_local):
+            stats["density_missed_by_exactly_the_ties"] = stats.get(
+                "density_missed_by_exactly_the_ties", 0) + 1
     return A
 
 
@@ -317,9 +328,11 @@ def _twin(net, grid, S, directed, op, viol, cname="ClimateNetwork"):
 def _stale_degree(net, A, stats):
     """Not judged here (cache coherence of Network measures is C01): count
     how often degree() disagrees with the adjacency after a setter."""
+    A = np.asarray(A)
+    exp = A.sum(axis=1) + (A.sum(axis=0) if net.directed else 0)
     try:
         k = np.asarray(net.degree())
-        if not np.array_equal(k, np.asarray(A).sum(axis=1)):
+        if not np.array_equal(k, exp):
             stats["degree()_differs_from_adjacency_row_sums (C01, not judged"
                   " here)"] = stats.get(
                 "degree()_differs_from_adjacency_row_sums (C01, not judged"
@@ -390,8 +403,8 @@ def fam_step(case):
     # toggling non_local, thresholds ascending
     chain = ([["thr", t] for t in reversed(menu)] +
              [["dens", r] for r in DENSITIES] + [["nl", not nl]] +
-             [["dens", r] for r in reversed(DENSITIES)] +
-             [["thr", t] for t in menu[1::2]] + [["nl", nl]])
+             [["dens", 1 / 2], ["thr", menu[len(menu) // 2]], ["nl", nl],
+              ["dens", 1 / 3]])
     try:
         net = _mk(grid, S, directed, nl, threshold=TAU0)
         mdl = M.Model(Sabs, D, directed, TAU0, nl)
@@ -488,7 +501,7 @@ def fam_hist(case):
         nv = len(viol)
         A = _check(net, mdl, ops[hist[-1]], viol, excl, stats)
         if A is not None:
-            if len(hist) <= 2:
+            if len(hist) <= 2 and len(viol) == nv:
                 # differential second opinion (the direct oracle above is
                 # complete; the twin is skipped on the longest histories)
                 _twin(net, grid, S, directed, ops[hist[-1]], viol)
@@ -630,7 +643,6 @@ def fam_sub(case):
         excl["similarity with nan/inf entries"] = 1
         return {"viol": _first_per_key(viol), "excluded": excl, "evals": 1, "trivial": True}
     Sabs = Sabs.tolist()
-    N = len(Sabs)
     D = np.asarray(net.grid.angular_distance(), dtype=float).tolist()
     directed = bool(net.directed)
     sup = (cls == "Hilbert")
@@ -659,7 +671,7 @@ def fam_sub(case):
         try:
             _apply(net, op)
         except Exception as ex:   # noqa
-            viol.append(V("%s.%s:raises" % (cname, names[op[0]]),
+            viol.append(V("ClimateNetwork.%s:raises" % names[op[0]],
                           "step %r" % (op,), repr(ex), "no exception"))
             break
         ntr += 1
@@ -717,13 +729,13 @@ def _matrix_cases(tier, seed):
         for code in range(n_matrices(3, True, ALPHA4)):
             out.append((3, True, code, diag))
     tot = n_matrices(3, False, ALPHA4)
-    stride = 1 if thorough else 16
+    stride = 1 if thorough else 32
     for diag in DIAGS:                       # N=3, all 4^6 (quick: every 8th)
         for code in range((seed % stride) if not thorough else 0, tot,
                           stride):
             out.append((3, False, code, diag))
     tot = n_matrices(4, True, ALPHA3)
-    stride = 1 if thorough else 12
+    stride = 1 if thorough else 24
     for diag in DIAGS:
         for code in range((seed % stride) if not thorough else 0, tot,
                           stride):
@@ -754,13 +766,14 @@ def run(ctx):
     depth = 3 if thorough else 2
     ctx.rule = (
         "step: similarity matrices N=3 over %s (all 4^3 symmetric and all 4^6 "
-        "general ones; quick: every 16th general) and N=4 symmetric over %s "
-        "(quick: every 12th), diagonal in %s, x 3 grids x directed x non_local;"
+        "general ones; quick: every 32nd general) and N=4 symmetric over %s "
+        "(quick: every 24th), diagonal in %s, x directed x (non_local on 3 grids, local on one);"
         " per case every threshold of the menu (realised plain and weighted "
         "values, midpoints, -1, 2) and every density %s as a construction and "
         "as setter calls on one object.  hist: all histories of length <= %d "
-        "over the operation menu on 64 matrices x 3 grids x directed, one "
-        "case per first operation.  sub: 13 data-derived configurations x 4 "
+        "over the operation menu on 64 matrices x directed x one grid "
+        "(rotating; the two other grids one step shorter), one case per "
+        "first operation.  sub: 13 data-derived configurations x 4 "
         "data sets x construction mode x non_local.  A case is non-trivial "
         "when at least two different adjacency matrices were observed in it; "
         "distinct = distinct (threshold, adjacency) outcome sequences." % (
@@ -780,6 +793,8 @@ def run(ctx):
                     # outside Network's documented domain: every 8th only
                     continue
                 for nl in (False, True):
+                    if not nl and g != GRID_NAMES[code % 3]:
+                        continue    # a local network does not see the grid
                     cases.append([N, sym, code, diag, g, d, nl])
     ctx.explore("step", cases, desc="constructions and one fixed setter "
                 "history per matrix x grid x directed x non_local")
@@ -787,15 +802,18 @@ def run(ctx):
     hm = _hist_matrices(ctx.seed)
     cases = []
     nstates = 0
-    for (N, sym, code, diag) in hm:
+    for mi, (N, sym, code, diag) in enumerate(hm):
         Sabs = M.stored(matrix(N, sym, code, diag))
         ops = ops_menu(Sabs)
         reach = len(M.reachable_states(Sabs, ops, TAU0))
-        for g in GRID_NAMES:
+        for gi, g in enumerate(GRID_NAMES):
             for d in (False, True):
                 nstates += reach
+                # the full depth on one grid per matrix (rotating), one step
+                # less on the other two
+                dep = depth if gi == mi % 3 else depth - 1
                 for first in range(len(ops)):
-                    cases.append([N, sym, code, diag, g, d, depth, first])
+                    cases.append([N, sym, code, diag, g, d, dep, first])
     ctx.explore("hist", cases, desc="all setter histories up to depth %d"
                 % depth)
     ctx.states += nstates
